@@ -32,6 +32,7 @@ type World struct {
 	reach        map[*ssa.Function]bool
 	pm           *parserModel
 	callSites    map[*ssa.Function][]ssa.CallInstruction
+	lexModel     *lexSSAModel
 	nonNegFields map[*types.Var]int
 	prog         *ssa.Program
 	ssaPkgs      map[string]*ssa.Package
